@@ -4,6 +4,7 @@ package main
 
 import (
 	"context"
+	"encoding/json"
 	"fmt"
 	"io"
 	"net/http"
@@ -156,9 +157,31 @@ func clientCases(w *emit.Writer, g *gen, n int) {
 			}
 			body = doc.Bytes(r, true)
 		}
+		// a complete document followed by further bytes (proxy error page, second document)
+		trailing := false
+		if valid && doc != nil && i >= len(helpers) && r.Chance(1, 6) {
+			if r.Chance(1, 2) && doc.Kind == kObj { // make the first value one the helper would accept
+				switch h.name {
+				case "HDiscover":
+					doc = jobj(kv{"issuer", jstr(subjects[3])}, kv{"jwks_uri", jstr(subjects[3] + "/keys")})
+				case "HUserinfo":
+					doc = jobj(kv{"sub", jstr("alice")})
+				}
+			}
+			tb := append(doc.Bytes(r, false), drv.Pick(r, []string{"<html><body>502 Bad Gateway</body></html>", "{}", "]}", "\n{\"sub\":\"bob\"}", "x", ",", "null", " 1"})...)
+			if !json.Valid(tb) {
+				body, trailing = tb, true
+			}
+		}
 		expect := drv.Pick(r, subjects[:3])
+		if trailing && h.name == "HUserinfo" && r.Bool() {
+			expect = "alice"
+		}
 		if h.name == "HDiscover" {
 			expect = drv.Pick(r, subjects[3:])
+			if trailing && r.Bool() {
+				expect = subjects[3]
+			}
 		}
 		sb.status, sb.body = status, body
 		sb.ctype = drv.Pick(r, []string{"application/json", "", "text/html"})
@@ -175,6 +198,9 @@ func clientCases(w *emit.Writer, g *gen, n int) {
 		if valid {
 			bd = emit.Ctor("BJson", doc.Coq())
 		}
+		if trailing {
+			bd = emit.Ctor("BTrailing", doc.Coq())
+		}
 		if status != 200 { // body class irrelevant to the model; keep the term but small
 			if doc != nil && len(body) > 300 {
 				bd = "BInvalid"
@@ -186,7 +212,7 @@ func clientCases(w *emit.Writer, g *gen, n int) {
 		if doc != nil {
 			top = int(doc.Kind)
 		}
-		tags = append(tags, "helper="+h.name, fmt.Sprintf("status=%d", status), fmt.Sprintf("body_top=%d", top))
+		tags = append(tags, "helper="+h.name, fmt.Sprintf("status=%d", status), fmt.Sprintf("body_top=%d", top), fmt.Sprintf("trailing=%v", trailing))
 		w.Add(emit.Case{
 			Input:    emit.Ctor("IClient", h.name, ans, emit.Str(expect), Tables(r, doc)),
 			Observed: emit.Ctor("OClient", obs),
